@@ -2,6 +2,7 @@
 use crate::ctx::*;
 use crate::ensure;
 use crate::inst::*;
+use crate::rec;
 use crate::util::*;
 use base::api::*;
 use base::json::J;
@@ -133,6 +134,14 @@ pub fn run(ctx: &Ctx) -> Outcome {
                         let unstable = std::cell::Cell::new(0u64);
                         // one scan: build the object, run the history, drop it inside zeroed storage, look for secret windows
                         let scan = || -> Option<String> {
+                            struct Off;
+                            impl Drop for Off {
+                                fn drop(&mut self) {
+                                    rec::scrub_calls(false);
+                                }
+                            }
+                            let _off = Off;
+                            rec::scrub_calls(true);
                             let mut o = w.make(cfg, &key, &iv);
                             for &op in h {
                                 o.op(cfg, op, &data);
